@@ -1,6 +1,7 @@
 package main
 
 import (
+	"regexp"
 	"go/types"
 	"strings"
 
@@ -129,7 +130,7 @@ func c14Address(c *Ctx, ge *GuardEngine) {
 		if len(cf.Chain) != 1 {
 			continue
 		}
-		if cf.Name == "write" && strings.HasPrefix(cf.Args[0], "append(nil,{types.SpendPolicy}.Type.(types.PolicyTypeThreshold).Of)[") && strings.HasPrefix(cf.Args[1], "call types.PolicyOpaque(append(nil,{types.SpendPolicy}.Type.(types.PolicyTypeThreshold).Of)[") {
+		if cf.Name == "write" && freshOfRe.MatchString(cf.Args[0]) && strings.HasPrefix(cf.Args[1], "call types.PolicyOpaque(") && freshOfRe.MatchString(strings.TrimPrefix(cf.Args[1], "call types.PolicyOpaque(")) {
 			opacified = true
 		}
 		if cf.Callee != nil && strings.Contains(FuncName(cf.Callee), "unlockConditionsRoot") || (cf.Callee != nil && len(cf.Args) == 1 && cf.Args[0] == "{types.SpendPolicy}.Type.(types.PolicyTypeUnlockConditions)") {
@@ -171,3 +172,6 @@ func c14Address(c *Ctx, ge *GuardEngine) {
 	}
 	c.Check(id && wrap && cond && len(rets) == 2, "address-commitment", "PolicyOpaque", c.P.Pos(po.Pos()), ifElse(id && wrap && cond, "PolicyOpaque(p) = p if p is opaque, else opaque(Address(p))", "PolicyOpaque returns "+joinShort(rets)))
 }
+
+// a fresh copy of the threshold's children, however it is made
+var freshOfRe = regexp.MustCompile(`^(append\(nil,|call slices\.Clone\[.*?\]\(|fresh\(Clone )\{types\.SpendPolicy\}\.Type\.\(types\.PolicyTypeThreshold\)\.Of\)\[`)
